@@ -401,3 +401,91 @@ func RunExpose(conf core.Config) *core.Result {
 	}
 	return res
 }
+
+// RunRelit implements GRAPHINV.relit: a method that rebuilds a value of its
+// receiver's struct type from the receiver's own fields (ReversedEdge,
+// ReversedLine: `return WeightedLine{F: l.T, T: l.F, W: l.W, UID: l.UID}`)
+// carries every field over. A keyed literal of the receiver's type whose
+// values read receiver fields and that leaves a field out zeroes that field in
+// the copy — the weight of a reversed weighted line, for instance, which an
+// undirected multigraph returns for every query from the other end.
+func RunRelit(conf core.Config, patterns ...string) *core.Result {
+	res := core.NewResult("GRAPHRELIT")
+	res.Rules = append(res.Rules, "GRAPHINV.relit: a keyed composite literal of the receiver's own struct type, built inside a method from the receiver's fields, names every field of the type")
+	res.Configs = append(res.Configs, conf.String())
+	pkgs, err := core.Load(conf, patterns...)
+	if err != nil {
+		res.Brokenf("%v", err)
+		return res
+	}
+	for _, pkg := range pkgs {
+		info := pkg.TypesInfo
+		for _, file := range pkg.Syntax {
+			for _, d := range file.Decls {
+				fd, ok := d.(*ast.FuncDecl)
+				if !ok || fd.Body == nil || fd.Recv == nil || len(fd.Recv.List) != 1 || len(fd.Recv.List[0].Names) != 1 {
+					continue
+				}
+				recv := info.Defs[fd.Recv.List[0].Names[0]]
+				if recv == nil {
+					continue
+				}
+				rt := recv.Type()
+				if p, ok := rt.(*types.Pointer); ok {
+					rt = p.Elem()
+				}
+				st, ok := rt.Underlying().(*types.Struct)
+				if !ok {
+					continue
+				}
+				name := core.FuncName(pkg, fd)
+				ast.Inspect(fd.Body, func(n ast.Node) bool {
+					cl, ok := n.(*ast.CompositeLit)
+					if !ok || len(cl.Elts) == 0 {
+						return true
+					}
+					tv, ok := info.Types[cl]
+					if !ok || !types.Identical(tv.Type, rt) {
+						return true
+					}
+					named := map[string]bool{}
+					fromRecv := 0
+					for _, e := range cl.Elts {
+						kv, ok := e.(*ast.KeyValueExpr)
+						if !ok {
+							return true // positional literals name every field by construction
+						}
+						if k, ok := kv.Key.(*ast.Ident); ok {
+							named[k.Name] = true
+						}
+						ast.Inspect(kv.Value, func(y ast.Node) bool {
+							if sel, ok := y.(*ast.SelectorExpr); ok {
+								if id, ok := ast.Unparen(sel.X).(*ast.Ident); ok && core.ObjOf(info, id) == recv {
+									fromRecv++
+								}
+							}
+							return true
+						})
+					}
+					if fromRecv < 2 {
+						return true
+					}
+					res.Obligations++
+					res.Count("receiver_rebuilding_literals", 1)
+					var missing []string
+					for i := 0; i < st.NumFields(); i++ {
+						if f := st.Field(i); !named[f.Name()] {
+							missing = append(missing, f.Name())
+						}
+					}
+					if len(missing) > 0 {
+						res.Add(core.Finding{Rule: "GRAPHINV.relit", Key: fmt.Sprintf("GRAPHINV.relit|%s|%s", name, strings.Join(missing, ",")), Pos: core.Pos(cl.Pos()), Func: name,
+							Msg: fmt.Sprintf("%s rebuilds a %s from the receiver's fields but leaves out %s: the copy has the zero value there", name, types.TypeString(rt, types.RelativeTo(pkg.Types)), strings.Join(missing, ", "))})
+					}
+					return true
+				})
+			}
+		}
+	}
+	return res
+}
